@@ -521,3 +521,274 @@ def check_C14(replay=None):
     chk.evaluations = ncmd + len(tev)
     chk.distinct = chk.evaluations
     return chk.finish()
+
+
+# --------------------------------------------------------------------------------------------
+# Command-line checks: C06, C07, C08, C18 (Trace_Cli.tla)
+# --------------------------------------------------------------------------------------------
+import re as _re
+import shutil as _shutil
+import subprocess as _sp
+
+
+def _files(chk, fam, n):
+    d = _wpath("%s_files_%s" % (chk.pid.lower(), fam))
+    _shutil.rmtree(d, ignore_errors=True)
+    man = _wpath("%s_files_%s.ndjson" % (chk.pid.lower(), fam))
+    harness(["gen", "files", "--fam", fam, "--n", n, "--seed", chk.seed, "--dir", d, "--out", man])
+    return d, [json.loads(l) for l in open(man)]
+
+
+def _flag(stack):
+    return ["-f", "stack"] if stack else []
+
+
+def _cli_validate(chk, events, name):
+    path = _wpath("%s_%s.ndjson" % (chk.pid.lower(), name))
+    with open(path, "w") as f:
+        for e in events:
+            f.write(json.dumps(e) + "\n")
+    res = tlc_trace("Trace_Cli", path)
+    chk.add_trace(res, len(events))
+    chk.evaluations += len(events)
+    if res["consumed"] != res["nrec"]:
+        raise vlib.ToolError("Trace_Cli consumed %s of %s events" % (res["consumed"], res["nrec"]))
+    for i in sorted(res["bad"]):
+        e = events[i - 1]
+        slim = {k: v for k, v in e.items() if k not in ("ast", "bytes", "after", "before")}
+        chk.violation("%s:%s" % (e["ev"], e.get("tag", "")), "observation of the real binary not allowed by Trace_Cli: %s" % json.dumps(slim)[:400],
+                      {"family": "cli", "events": [e]})
+    return path
+
+
+def _norm_out(b, paths):
+    t = b.decode("utf-8", "replace")
+    for p in paths:
+        t = t.replace(p, "<file>")
+    return t
+
+
+LOADER_MSGS = ("provided file is empty", "too long and cannot fit", "not aligned to 16 bits")
+
+
+def check_C06(replay=None):
+    chk = Check("C06")
+    chk.rule = ("compile: seeded multi-label programs + catalogue compiled by the real binary, file bytes must equal big-endian [origin or 0x3000] ++ Assembler!Image; runpair: executable programs (catalogue + seeded, with input) "
+                "run from source and from the compiled object file, stdout (file names masked) and exit status must be equal; loadfile: byte files of every length parity, empty, with first words and lengths that put the image end "
+                "at 0xFFFE / 0xFFFF / 0x10000, must be refused exactly when they do not fit, never with a crash. distinct = files")
+    chk.assumptions = ["file contents for the loader test are HALT words (what matters is length and first word)"]
+    vlib.build(need_cli=True)
+    thorough = chk.tier == "thorough"
+    res = tlc_mc("MC_Machine", "MC_Machine.cfg", workers=8, coverage=False)
+    chk.add_mc(res, "MC_Machine(loader)")
+    events = []
+    # (1) compile
+    d, man = _files(chk, "compile", 400 if thorough else 60)
+
+    def comp(c):
+        dest = c["path"][:-4] + ".lc3"
+        code, out, err = vlib.run_lace(["compile"] + _flag(c["stack"]) + [c["path"], dest])
+        b = list(open(dest, "rb").read()) if code == 0 and os.path.exists(dest) else []
+        return {"ev": "compile", "tag": c["tag"], "ast": c["ast"], "stack": c["stack"], "code": code, "bytes": b, "src": c["src"]}
+    events += parallel(comp, man, 8)
+    # (2) run from source vs from object file
+    d2, man2 = _files(chk, "exec", 150 if thorough else 24)
+
+    def pair(c):
+        dest = c["path"][:-4] + ".lc3"
+        code, out, err = vlib.run_lace(["compile"] + _flag(c["stack"]) + [c["path"], dest])
+        inp = bytes(c["input"])
+        a = vlib.run_lace(["run", "--minimal"] + _flag(c["stack"]) + [c["path"]], stdin=inp)
+        if code != 0:
+            return {"ev": "runpair", "tag": c["tag"], "asm": [a[0], "no-object"], "obj": [code, "compile-failed"], "src": c["src"]}
+        o = vlib.run_lace(["run", "--minimal"] + _flag(c["stack"]) + [dest], stdin=inp)
+        return {"ev": "runpair", "tag": c["tag"], "asm": [a[0], _norm_out(a[1], [c["path"]])], "obj": [o[0], _norm_out(o[1], [dest])], "src": c["src"]}
+    pairs = parallel(pair, man2, 8)
+    # programs that do not assemble have no object file: nothing to compare
+    events += [p for p in pairs if p["obj"][1] != "compile-failed"]
+    # (3) loader
+    ld = _wpath("c06_load")
+    _shutil.rmtree(ld, ignore_errors=True)
+    os.makedirs(ld)
+    specs = [(0, None)]
+    for nbytes in (1, 2, 3, 4, 5, 7):
+        for o in (0x3000, 0x0000, 0xFFFF, 0xFDFF, 0xFE00):
+            specs.append((nbytes, o))
+    for o in (0x0000, 0x3000, 0x8000, 0xFDFF, 0xFE00, 0xFFF0, 0xFFFE, 0xFFFF):
+        for end in (0xFFFD, 0xFFFE, 0xFFFF, 0x10000, 0x10001):   # address one past the last image word
+            n = end - o
+            if n >= 0:
+                specs.append((2 * (n + 1), o))
+                specs.append((2 * (n + 1) + 1, o))
+
+    def loadf(spec):
+        nbytes, o = spec
+        name = os.path.join(ld, "f_%d_%s.lc3" % (nbytes, "x" if o is None else "%04x" % o))
+        data = b""
+        if nbytes > 0:
+            data = bytes([o >> 8, o & 0xFF]) + bytes([0xF0, 0x25]) * (nbytes // 2)
+            data = data[:nbytes]
+        open(name, "wb").write(data)
+        ext = name if nbytes % 5 else name[:-4] + ".obj"
+        if ext != name:
+            os.rename(name, ext)
+        code, out, err = vlib.run_lace(["run", "--minimal", ext], timeout=30)
+        os.remove(ext)
+        e = err.decode("utf-8", "replace")
+        return {"ev": "loadfile", "tag": "len%d" % nbytes, "len": nbytes, "o": o if o is not None else 0, "code": code,
+                "refused": any(m in e for m in LOADER_MSGS)}
+    events += parallel(loadf, specs, 8)
+    _cli_validate(chk, events, "cli")
+    chk.distinct = chk.evaluations
+    chk.samples = [{k: v for k, v in events[0].items() if k != "ast"}, events[len(man) + 1], events[-1]]
+    _shutil.rmtree(d, ignore_errors=True)
+    _shutil.rmtree(d2, ignore_errors=True)
+    return chk.finish()
+
+
+def check_C07(replay=None):
+    chk = Check("C07")
+    chk.rule = ("case = source file (boundary-value matrix of C04, an out-of-range label reference at every statement position for every PC-relative instruction, stack-mnemonic programs, catalogue) x feature flag value; "
+                "`lace check`, `lace compile`, `lace run` of the real binary are run on it (every program halts at once); their verdicts must all equal Assembler!Accepts and none may panic. distinct = (file, flag) pairs")
+    chk.assumptions = ["run's verdict: exit status 1 = diagnostic from the assembler (0 = ran and halted, 0xEE = assembled but the image does not fit at its origin)", "watch re-checks share assemble() with check; its event delivery is not driven here"]
+    vlib.build(need_cli=True)
+    thorough = chk.tier == "thorough"
+    for cfg in ["MC_Assembler_nostack.cfg"] + (["MC_Assembler.cfg"] if thorough else []):
+        chk.add_mc(tlc_mc("MC_Assembler", cfg, workers=8, coverage=False), cfg)
+    d, man = _files(chk, "agree", 200 if thorough else 20)
+    jobs = [(c, f) for c in man for f in (True, False)]
+
+    def agree(job):
+        c, f = job
+        dest = c["path"][:-4] + (".on" if f else ".off") + ".lc3"
+        ck = vlib.run_lace(["check"] + _flag(f) + [c["path"]])
+        cp = vlib.run_lace(["compile"] + _flag(f) + [c["path"], dest])
+        rn = vlib.run_lace(["run", "--minimal"] + _flag(f) + [c["path"]])
+        return {"ev": "agree", "tag": c["tag"], "ast": c["ast"], "stack": f, "check": ck[0] == 0, "compile": cp[0] == 0,
+                "run": rn[0] != 1 and rn[0] != 101, "panic": any(x[0] in (101, -1) or x[0] < -1 for x in (ck, cp, rn)),
+                "codes": [ck[0], cp[0], rn[0]], "src": c["src"]}
+    events = parallel(agree, jobs, 8)
+    _cli_validate(chk, events, "agree")
+    chk.distinct = chk.evaluations
+    chk.samples = [{k: v for k, v in events[0].items() if k != "ast"}, {k: v for k, v in events[-1].items() if k != "ast"}]
+    _shutil.rmtree(d, ignore_errors=True)
+    return chk.finish()
+
+
+_STRACE_OK = None
+
+
+def _strace_ok():
+    global _STRACE_OK
+    if _STRACE_OK is None:
+        try:
+            r = _sp.run(["strace", "-f", "-e", "trace=openat", "-o", "/dev/null", "true"], stdout=_sp.PIPE, stderr=_sp.PIPE, timeout=20)
+            _STRACE_OK = r.returncode == 0
+        except Exception:
+            _STRACE_OK = False
+    return _STRACE_OK
+
+
+def check_C08(replay=None):
+    chk = Check("C08", level="fault_enumeration")
+    chk.rule = ("fault point = (source whose out-of-range label reference sits at statement position p for each PC-relative instruction, or a valid source) x destination in {absent, existing file, /dev/full, path in a missing directory}; "
+                "`lace compile src dest` of the real binary runs under strace; Trace_Cli!AtomicOk requires exit 0 => destination holds exactly the object bytes, exit != 0 => destination bytes unchanged, and no open(O_CREAT|O_TRUNC) of "
+                "the destination before assembly succeeded. distinct = (source, destination kind) pairs")
+    chk.assumptions = ["write faults are injected with /dev/full and an uncreatable path; partial writes to a regular file on a full disk are not injected"]
+    vlib.build(need_cli=True)
+    thorough = chk.tier == "thorough"
+    d, man = _files(chk, "atomic", 0)
+    if not thorough:
+        man = man[::2]
+    use_strace = _strace_ok()
+    chk.extra["strace"] = use_strace
+    old = bytes(range(7)) * 3
+    jobs = [(c, dk) for c in man for dk in ("absent", "file", "devfull", "nodir")]
+
+    def atomic(job):
+        c, dk = job
+        base = c["path"][:-4] + "." + dk
+        if dk == "absent":
+            dest = base + ".lc3"
+            if os.path.exists(dest):
+                os.remove(dest)
+        elif dk == "file":
+            dest = base + ".lc3"
+            open(dest, "wb").write(old)
+        elif dk == "devfull":
+            dest = "/dev/full"
+        else:
+            dest = os.path.join(base + "_missing_dir", "x.lc3")
+        before = list(open(dest, "rb").read()) if dk in ("absent", "file") and os.path.exists(dest) else [-1]
+        log = base + ".strace"
+        argv = ["compile"] + _flag(c["stack"]) + [c["path"], dest]
+        opens = -1
+        if use_strace:
+            r = _sp.run(["strace", "-f", "-e", "trace=openat,creat,open", "-o", log, vlib.LACE_BIN] + argv, stdout=_sp.PIPE, stderr=_sp.PIPE, cwd=WORK, timeout=60)
+            code = r.returncode
+            opens = 0
+            for line in open(log, errors="replace"):
+                if dest in line and ("O_CREAT" in line or "O_TRUNC" in line or "creat(" in line):
+                    opens += 1
+            os.remove(log)
+        else:
+            code = vlib.run_lace(argv)[0]
+        after = list(open(dest, "rb").read()) if dk in ("absent", "file", "nodir") and os.path.exists(dest) else [-1]
+        if dk == "devfull":
+            after = before = [-2]
+        return {"ev": "atomic", "tag": c["tag"] + ":" + dk, "ast": c["ast"], "stack": c["stack"], "dest": dk, "code": code,
+                "before": before, "after": after, "opens": opens, "src": c["src"]}
+    events = parallel(atomic, jobs, 8)
+    _cli_validate(chk, events, "atomic")
+    chk.distinct = chk.evaluations
+    chk.samples = [{k: v for k, v in events[1].items() if k != "ast"}, {k: v for k, v in events[-2].items() if k != "ast"}]
+    _shutil.rmtree(d, ignore_errors=True)
+    return chk.finish()
+
+
+def check_C18(replay=None):
+    chk = Check("C18")
+    chk.rule = ("gate: push/pop/call/rets in any letter case and in label position compiled by the real binary without -f stack (must be refused with a diagnostic naming the feature, no crash) and with it (must compile); "
+                "programs using none of them compiled and run under both flag values (object bytes, stdout and exit status must be identical); -f values (stack / stack, / ,stack / stack,stack / foo / empty / Stack) against Trace_Cli!FeatValid; "
+                "in-process: catalogue run with the flag flipped and raw 0xD words reached at run time (exit 1 without the flag, executed with it), `step out` refusal, validated by Trace_Debug.tla. distinct = cases")
+    chk.assumptions = []
+    vlib.build(need_cli=True)
+    thorough = chk.tier == "thorough"
+    chk.add_mc(tlc_mc("MC_ISA", "MC_ISA.cfg", workers=8, coverage=False), "MC_ISA(stack gate: Stops)")
+    chk.add_mc(tlc_mc("MC_Assembler", "MC_Assembler_nostack.cfg", workers=8, coverage=False), "MC_Assembler_nostack")
+    d, man = _files(chk, "gate", 0)
+
+    def gate(c):
+        uses = c["tag"].startswith("uses-") or c["tag"].startswith("label-")
+        evs = []
+        if uses:
+            for f in ((False,) if c["tag"].startswith("label-") else (False, True)):
+                dest = c["path"][:-4] + (".on" if f else ".off") + ".lc3"
+                code, out, err = vlib.run_lace(["compile"] + _flag(f) + [c["path"], dest])
+                evs.append({"ev": "gate", "tag": c["tag"], "uses": True, "stack": f, "code": code, "names": b"stack" in err, "same": True})
+        else:
+            res = {}
+            for f in (False, True):
+                dest = c["path"][:-4] + (".on" if f else ".off") + ".lc3"
+                cp = vlib.run_lace(["compile"] + _flag(f) + [c["path"], dest])
+                rn = vlib.run_lace(["run", "--minimal"] + _flag(f) + [c["path"]], stdin=bytes(c["input"]))
+                res[f] = (cp[0], open(dest, "rb").read() if cp[0] == 0 else b"", rn[0], rn[1])
+            same = res[False][1:] == res[True][1:]
+            evs.append({"ev": "gate", "tag": c["tag"], "uses": False, "stack": False, "code": res[False][0] or res[True][0], "names": False, "same": same})
+        return evs
+    events = [e for evs in parallel(gate, man, 8) for e in evs]
+    src = os.path.join(d, "feat.asm")
+    open(src, "w").write("halt\n")
+    for v in ["stack", "stack,", ",stack", ",,stack,,", "stack,stack", "foo", "", ",", "Stack", "stack,foo", "stac", "stack ", "stack,,stack"]:
+        code, out, err = vlib.run_lace(["check", "-f", v, src])
+        events.append({"ev": "featarg", "tag": v, "value": vlib.chars(v), "code": code})
+    _cli_validate(chk, events, "gate")
+    # in-process: flipped flag, raw 0xD words
+    traces = _dbg_jobs_run(chk, [("run", ["--mode", "run", "--n", 40 if thorough else 8, "--seed", chk.seed]),
+                                 ("scn", ["--mode", "scenario", "--seed", chk.seed])])
+    for t in traces:
+        os.remove(t)
+    chk.distinct = chk.evaluations
+    chk.samples = events[:2] + events[-2:]
+    _shutil.rmtree(d, ignore_errors=True)
+    return chk.finish()
